@@ -516,8 +516,21 @@ def r04d(model, ctx):
               f"{IR}:{fw.lineno}")
     # transparency mask / port ids (RTLIL)
     fr = model.func_expanded(f"{RTLIL}::ModuleEmitter.emit_read_port")
+    # TRANSPARENCY_MASK = OR of 1 << write_port_ids[w] over cell.transparent_for: a sum() of distinct one-hot terms, or an
+    # accumulator or-ing / adding them in a loop over the same sequence
     ok = any(pmatch("sum((1 << memory_info.write_port_ids[write_port_cell_index] for write_port_cell_index in cell.transparent_for))", n) is not None
+             or pmatch("sum([1 << memory_info.write_port_ids[write_port_cell_index] for write_port_cell_index in cell.transparent_for])", n) is not None
              for n in ast.walk(fr))
+    if not ok:
+        for lp in ast.walk(fr):
+            if isinstance(lp, ast.For) and unparse(lp.iter) == "cell.transparent_for" and isinstance(lp.target, ast.Name) and len(lp.body) == 1:
+                st = lp.body[0]
+                v = lp.target.id
+                if isinstance(st, ast.AugAssign) and isinstance(st.op, (ast.BitOr, ast.Add)) and isinstance(st.target, ast.Name) and \
+                        unparse(st.value) == f"1 << memory_info.write_port_ids[{v}]":
+                    acc = st.target.id
+                    init0 = any(isinstance(x, ast.Assign) and unparse(x.targets[0]) == acc and const_int(x.value) == 0 for x in ast.walk(fr))
+                    ok = init0 and f"'TRANSPARENCY_MASK': _ast.Const({acc}," in unparse(fr).replace('"', "'")
     ctx.check(ok, R, "emit_read_port:TRANSPARENCY_MASK", "sum(1 << write_port_ids[idx] for idx in transparent_for)",
               "TRANSPARENCY_MASK must have exactly the PORTID bits of the write ports in transparent_for",
               f"{RTLIL}:{fr.lineno}")
